@@ -448,6 +448,7 @@ def x_urandom(ex, st, args, kwargs, cx):
     ctr = st.g("rand_ctr")
     y = f(ctr)
     st.assume(z3.Length(y) == o.i(args[0]))
+    st.terms.append(("bytes", y))
     st.setg("rand_ctr", ctr + 1)
     yield st, o.bytes_(y)
 
@@ -891,3 +892,49 @@ def l_iadd(ex, st, recv, args, kwargs, cx):
 
 CONTAINER_METHODS[("list", "extend")] = l_extend
 CONTAINER_METHODS[("list", "__iadd__")] = l_iadd
+
+
+# ====================================================================== hashlib
+trusted("hashlib", "alg() / alg(data) give a hasher; update(x) appends; digest() == hash_of(alg, all data) of length digest_size(alg) > 0; "
+        "hasher.digest_size == digest_size(alg); no side effects.  Collision freedom is NOT assumed except where a lemma says so")
+
+
+def hash_funs(w):
+    return (w.fun("hash_of", "V", ByteSeq, ByteSeq), w.fun("digest_size", "V", "int"))
+
+
+def x_hash_new(ex, st, args, kwargs, cx):
+    o, w, V = ex.o, ex.w, ex.w.V
+    st = st.clone()
+    r = st.new_ref("Hasher")
+    st.wr("$alg", r, args[0].e)
+    init = o.y(args[1]) if len(args) > 1 else z3.Empty(ByteSeq)
+    st.wr("$buf", r, V.bytes(init))
+    H, dsz = hash_funs(w)
+    st.assume(dsz(args[0].e) > 0)
+    yield st, o.ref(r, "Hasher")
+
+
+def h_update(ex, st, recv, args, kwargs, cx):
+    V = ex.w.V
+    r = ex.o.r(recv)
+    st = st.clone()
+    st.wr("$buf", r, V.bytes(z3.Concat(V.y(st.rd("$buf", r)), ex.o.y(args[0]))))
+    yield st, ex.o.none()
+
+
+def h_digest(ex, st, recv, args, kwargs, cx):
+    w, V = ex.w, ex.w.V
+    r = ex.o.r(recv)
+    H, dsz = hash_funs(w)
+    alg = st.rd("$alg", r)
+    d = H(alg, V.y(st.rd("$buf", r)))
+    st = st.clone()
+    st.assume(z3.Length(d) == dsz(alg))
+    st.assume(dsz(alg) > 0)
+    yield st, ex.o.bytes_(d)
+
+
+EXTERNALS["hashlib.new"] = x_hash_new
+CONTAINER_METHODS[("Hasher", "update")] = h_update
+CONTAINER_METHODS[("Hasher", "digest")] = h_digest
